@@ -237,6 +237,10 @@ def run(ctx):
   C01.provenance(ctx)
   C01.lobpcg_path(ctx)
   C01.size1_error_honest(ctx)      # ... also on the 1x1 shortcut (F21)
+  # sharded mode: the reported errors kept in the state are the ones of the roots that were kept (old metrics exactly
+  # on the steps whose roots were not refreshed)
+  from . import C04
+  C04.sharded_metrics(ctx)
 
 
 def run_gate(ctx):
